@@ -8,7 +8,9 @@
 (*                                                        no surrounding blanks, may contain '='   *)
 (*    t = "hos"      k, v as "kv", but v contains an XML-special or control character (& < > ...)  *)
 (*    t = "key"      k = the text of a line without '='                                            *)
-(*    t = "nokey"    v = text after the '=' of a line whose key is empty                           *)
+(*    t = "nokey"    v = text after the '=' of a line whose key is empty: "= v", "==" (v is "="),  *)
+(*                   "=" (v empty); blanks before the '=' are the line's leading blanks, so this   *)
+(*                   also is the line whose key consists of blanks only                            *)
 (*    t = "comment"  v = text after '#'                                                            *)
 (*    t = "hcomment" v = text after '#', containing an XML-special character                       *)
 (*    t = "blank"                                                                                  *)
@@ -27,6 +29,11 @@
 (* of the line listing and nothing else.  A parser that lists a bare k as a key when it stands alone but keeps   *)
 (* an earlier k=v when it does not follows neither reading.  Run(doc) = RunR(doc, FALSE) is the part both        *)
 (* readings share (domains, faults, '='-bindings of keys never written bare).                                     *)
+(* A line with an empty key ("nokey"): it is a written line that is neither blank nor a comment, so it IS an   *)
+(* entry of the line listing of its domain (the statement: the line listings contain exactly the written         *)
+(* entries) -- a parser that returns success without it has silently dropped part of the document.  The           *)
+(* statement does not say that the empty text is a key: the reference binds nothing (EmptyKeyLinesAreLinesOnly), *)
+(* and what a parser answers about a key "" is recorded, not judged (Oracle_Conf!EkObs).                          *)
 (* A second, declarative characterisation (Encl, DeclLookup, ...) says the same thing without a stack, by     *)
 (* counting; MC_Conf checks that both agree on every document of a small scope.                    *)
 EXTENDS Integers, Sequences, FiniteSets, TLC
@@ -76,6 +83,7 @@ FoldR(st, doc, i, bare) == IF i > Len(doc) THEN st ELSE FoldR(StepR(st, doc[i], 
 RunR(doc, bare) == FoldR(St0, doc, 1, bare)
 Run(doc) == RunR(doc, FALSE)
 HasBare(doc) == \E i \in 1..Len(doc) : doc[i].t = "key"
+HasNoKey(doc) == \E i \in 1..Len(doc) : doc[i].t = "nokey"
 
 (* Classification of a document: what a parser is allowed to answer *)
 Mismatch(r)  == r.fault # 0                    \* a close that closes nothing: must be an error
@@ -213,6 +221,19 @@ AgreeOn(doc, names, keys) ==
 NoiseFree(doc) == SelectSeq(doc, LAMBDA l : ~Ignored(l))
 IgnoredLinesIgnored(doc) == LET a == Run(doc) b == Run(NoiseFree(doc)) IN
    a.dom = b.dom /\ a.stack = b.stack /\ (a.fault = 0) = (b.fault = 0)
+\* lines with an empty key are entries of the line listing of their domain, each of them, in document order, and nothing
+\* else: without them the document means the same tree, and every line listing is the old one with exactly those entries
+\* taken out (so none of them may be missing from a listing, and none can stand in for a binding)
+NoKeyFree(doc) == SelectSeq(doc, LAMBDA l : l.t # "nokey")
+EmptyKeyLinesAreLinesOnly(doc) == LET a == Run(doc) b == Run(NoKeyFree(doc)) IN
+   /\ DOMAIN a.dom = DOMAIN b.dom /\ a.stack = b.stack /\ (a.fault = 0) = (b.fault = 0)
+   /\ \A p \in DOMAIN a.dom :
+        /\ a.dom[p].kv = b.dom[p].kv /\ a.dom[p].subs = b.dom[p].subs /\ a.dom[p].opt = b.dom[p].opt
+        /\ b.dom[p].lines = SelectSeq(a.dom[p].lines, LAMBDA l : l.t # "nokey")
+        /\ Len(a.dom[p].lines) - Len(b.dom[p].lines)
+             = Cardinality({i \in 1..Eff(doc) : doc[i].t = "nokey" /\ Encl(doc, i) = p})
+        /\ \A i \in 1..Eff(doc) : (doc[i].t = "nokey" /\ Encl(doc, i) = p) =>
+               \E n \in 1..Len(a.dom[p].lines) : a.dom[p].lines[n] = doc[i]
 \* re-opening merges: two complete documents one after the other mean the right-biased union of their trees
 MergeDom(a, b) == [subs |-> a.subs \cup b.subs, kv |-> b.kv @@ a.kv, opt |-> a.opt \cup b.opt, lines |-> a.lines \o b.lines]
 MergeTree(A, B) == [p \in DOMAIN A \cup DOMAIN B |->
